@@ -328,7 +328,11 @@ class Interp(Exec):
 
     def havoc_loop_targets(self, s, fi):
         """Havoc what the loop body may modify (effects.py: by-name over-approximation, transitive over callees)."""
-        eff = self.effects.of_nodes([s], (fi.module, fi.cls))
+        def recv_builtin(node):
+            if isinstance(node, ast.Name) and node.id in self.st.env:
+                return isinstance(self.st.env[node.id], (VCont, VStr, VTuple, VInt, VBool))
+            return False
+        eff = self.effects.of_nodes([s], (fi.module, fi.cls), recv_builtin)
         for name in eff["locals"]:
             if name in self.st.env:
                 self.st.env[name] = self.havoc_value(self.st.env[name], name)
@@ -377,6 +381,11 @@ class Interp(Exec):
     # ------------------------------------------------------------------ assignment
     def assign(self, t, v):
         if isinstance(t, ast.Name):
+            if isinstance(v, VCont) and isinstance(self.cont(v), EmptyV) and self.frame is not None:
+                c = self.reg.contracts.get(self.frame.fi.fid)
+                lt = c.labels.get("local_types", {}).get(t.id) if c else None
+                if lt is not None:
+                    self.materialize(v, lt)
             self.st.env[t.id] = v
         elif isinstance(t, (ast.Tuple, ast.List)):
             if isinstance(v, VTuple) and len(v.items) == len(t.elts):
